@@ -7,6 +7,7 @@ PROP_V = "Props/Properties_C18.v"
 GEN_MODULES = ["Time", "TimeCpp", "TimeInt", "TimeIntCpp", "Consts", "ConstsCpp"]
 NS = 10 ** 9
 I64 = (-(2 ** 63), 2 ** 63 - 1)
+DIFF_GRID_QUICK = 2000     # grid cases (of 82944) sent through the Coq evaluation of the translated functions in the quick tier
 
 
 def build_drivers():
@@ -33,6 +34,8 @@ def build_drivers():
 
 
 def gen_cases(seed, tier):
+    """Returns (cases, n_grid): the first n_grid cases are the COMPLETE boundary grid (every pair of boundary points x 4 ops, both
+    tiers: the driver handles them in one process in well under a second per build); the rest are aimed / random / ms / us / s_ns."""
     rnd = random.Random(seed)
     secs = [0, 1, -1, 2, -2, 2 ** 31, -(2 ** 31), 2 ** 31 - 1, 2 ** 31 + 1, 2 ** 40, -(2 ** 40), 2 ** 62, -(2 ** 62),
             2 ** 63 - 1, 2 ** 63 - 2, -(2 ** 63), -(2 ** 63) + 1, 1700000000]
@@ -40,7 +43,7 @@ def gen_cases(seed, tier):
     cases = []
     pairs = [(s, n) for s in secs for n in nsecs]
     npair = 500 if tier == "quick" else 4000
-    grid = [(a, b) for a in pairs for b in pairs]
+    grid = [(a, b) for a in pairs for b in pairs]          # all 144 x 144 = 20736 pairs
     rnd.shuffle(grid)
     # aimed: carry/borrow boundaries (na+nb = NS-1, NS, NS+1; na = nb, na = nb +/- 1) with every seconds pair sign mix
     aimed = []
@@ -55,7 +58,11 @@ def gen_cases(seed, tier):
         sa = rnd.choice([rnd.randint(-2 ** 40, 2 ** 40), rnd.randint(-10, 10), rnd.choice(secs)])
         sb = rnd.choice([rnd.randint(-2 ** 40, 2 ** 40), rnd.randint(-10, 10), rnd.choice(secs)])
         rand.append(((sa, rnd.randrange(NS)), (sb, rnd.randrange(NS))))
-    for (a, b) in grid[:npair] + aimed + rand:
+    for (a, b) in grid:
+        for op in ("add", "sub", "cmp", "rt"):
+            cases.append((op, a[0], a[1], b[0], b[1]))
+    n_grid = len(cases)
+    for (a, b) in aimed + rand:
         for op in ("add", "sub", "cmp", "rt"):
             cases.append((op, a[0], a[1], b[0], b[1]))
     us = [0, 1, 999, 1000, 1001, 999999, 1000000, 1000001, 4294967, 4294968, 4294967295, 4294967294, 2 ** 31, 2 ** 31 - 1,
@@ -64,10 +71,12 @@ def gen_cases(seed, tier):
     for u in us:
         cases.append(("ms", u))
         cases.append(("us", u))
-    for s in secs[:8]:
-        for n in (0, 1, NS - 1, 4294967295 % NS):
+    # nsync_time_s_ns (time_t s, unsigned ns): "for every argument" -- every boundary second x nanosecond arguments below, at and
+    # above one second, up to the largest value of the parameter type (unsigned, 32 bits)
+    for s in secs:
+        for n in (0, 1, NS // 2, NS - 1, NS, NS + 1, 2 * NS - 1, 2 * NS, 2 ** 31 - 1, 2 ** 31, 4 * NS, 2 ** 32 - 1):
             cases.append(("sns", s, n))
-    return cases
+    return cases, n_grid
 
 
 def run_driver(exe, cases):
@@ -112,7 +121,8 @@ def oracle(case, res, consts):
         _, sa, na, sb, nb = case
         d = (sa * NS + na) - (sb * NS + nb)
         want = (d > 0) - (d < 0)
-        if res[0] != want:
+        # the header and the property fix only the SIGN of the result ("+ve, 0, or -ve"), not its magnitude
+        if (res[0] > 0) - (res[0] < 0) != want:
             return "cmp returned %d, sign of a-b is %d" % (res[0], want)
     elif op in ("ms", "us"):
         u = case[1]
@@ -121,9 +131,18 @@ def oracle(case, res, consts):
         if not (0 <= rn < NS) or rs * NS + rn != want:
             return "%s(%d) = %r, expected %d ns" % (op, u, res, want)
     elif op == "sns":
+        # "yield the stated duration for every argument": s seconds + n nanoseconds, as an exact integer.  For n >= 1e9 the
+        # property does not say whether the result is normalized, so only the duration is compared; a result whose normalized
+        # seconds field would not fit (overflow) is outside the property
         _, s, n = case
-        if res != (s, n):
-            return "s_ns(%d,%d) = %r" % (s, n, res)
+        exact = s * NS + n
+        if not in64(exact // NS):
+            return None
+        rs, rn = res
+        if rs * NS + rn != exact:
+            return "s_ns(%d,%d) = %r, which is %d ns, expected %d ns" % (s, n, res, rs * NS + rn, exact)
+        if n < NS and not (0 <= rn < NS):
+            return "s_ns(%d,%d) = %r is not normalized although its arguments are" % (s, n, res)
     return None
 
 
@@ -150,11 +169,28 @@ def zlit(x):
     return "(%d)" % x
 
 
-def model_diff(cases, results, lang):
+def model_diff(cases, results, lang, chunk=6000):
+    """model_diff_1 over chunks of the cases, several coqc processes at a time (the thorough tier sends ~90000 cases per build)."""
+    import concurrent.futures as cf
+    if len(cases) <= chunk:
+        return model_diff_1(cases, results, lang, 0)
+    starts = list(range(0, len(cases), chunk))
+    with cf.ThreadPoolExecutor(max_workers=max(1, NCPU // 2)) as ex:
+        futs = [(k, ex.submit(model_diff_1, cases[k:k + chunk], results[k:k + chunk], lang, k)) for k in starts]
+        allbad = []
+        for k, f in futs:
+            bad, err = f.result()
+            if bad is None:
+                return None, err
+            allbad += [k + i for i in bad]
+    return allbad, None
+
+
+def model_diff_1(cases, results, lang, tag):
     """Evaluate the regenerated Gallina functions on the same cases inside Coq; return mismatching case indices."""
     T, TI = ("Time", "TimeInt") if lang == "c" else ("TimeCpp", "TimeIntCpp")
     d = os.path.join(WORK, "c18")
-    path = os.path.join(d, "cases_%s.v" % ("c" if lang == "c" else "cpp"))
+    path = os.path.join(d, "cases_%s_%d.v" % ("c" if lang == "c" else "cpp", tag))
     lines = ["From NsyncBase Require Import CSem.", "From NsyncGen Require Import %s %s." % (T, TI),
              "Local Open Scope Z_scope.",
              "Definition ts (t : timespec) := (timespec_tv_sec t, timespec_tv_nsec t).",
@@ -205,8 +241,15 @@ def run(tier, seed):
     exes, errs = build_drivers()
     for lang, e in errs.items():
         res["broken"].append({"what": "real %s build of the time functions does not compile" % lang, "detail": e})
-    cases = gen_cases(seed, tier)
+    cases, n_grid = gen_cases(seed, tier)
     rnd = random.Random(seed + 1)
+    # the PROPERTY oracle runs on every case in both tiers.  The translator-correspondence check (Gen model evaluated inside Coq on
+    # the same inputs) is the expensive part: in quick it takes the first DIFF_GRID_QUICK grid cases (the grid is shuffled by the
+    # seed) plus everything that is not grid; in thorough all cases.
+    if tier == "quick":
+        diff_idx = list(range(min(n_grid, DIFF_GRID_QUICK))) + list(range(n_grid, len(cases)))
+    else:
+        diff_idx = list(range(len(cases)))
     kinds = {}
     for c in cases:
         kinds[c[0]] = kinds.get(c[0], 0) + 1
@@ -238,19 +281,24 @@ def run(tier, seed):
             samples = [{"case": list(c), "result_%s" % lang: list(r)} for c, r in list(zip(cases, out))[:3]] + \
                       [{"case": list(c), "result_%s" % lang: list(r)} for c, r in list(zip(cases, out))[-3:]]
         if res_gen_ok(lang):
-            bad, err = model_diff(cases, out, lang)
+            bad, err = model_diff([cases[i] for i in diff_idx], [out[i] for i in diff_idx], lang)
             if bad is None:
                 res["broken"].append({"what": "model evaluation failed (%s)" % lang, "detail": err})
             else:
-                diffs += len(cases)
+                diffs += len(diff_idx)
                 for i in bad[:5]:
                     res["broken"].append({"what": "correspondence: Gen model and real %s build disagree" % lang,
-                                          "case": cases[i], "impl": out[i]})
-    res["coverage"] = {"differential_cases_per_build": len(cases), "builds": sorted(exes), "case_kinds": kinds,
+                                          "case": cases[diff_idx[i]], "impl": out[diff_idx[i]]})
+    nviol = len(res["violations"])
+    res["violations"] = res["violations"][:10]      # one defect can fail thousands of grid cases; keep the evidence file small
+    res["coverage"] = {"differential_cases_per_build": len(cases), "violating_cases": nviol, "builds": sorted(exes), "case_kinds": kinds,
                        "evaluations": total, "distinct_nontrivial": len(nontrivial),
-                       "rule": "boundary grid of seconds x nanoseconds (shuffled by VERIF_SEED), aimed carry/borrow pairs, "
-                               "random pairs, ms/us boundary + random 32-bit arguments; non-trivial = add/sub with carry or "
+                       "rule": "ALL pairs of the boundary grid of 18 seconds x 8 nanoseconds values (20736 pairs x add/sub/cmp/round-trip), "
+                               "aimed carry/borrow pairs, random pairs, ms/us boundary + random 32-bit arguments, s_ns with nanosecond "
+                               "arguments below/at/above 1e9 up to 2^32-1; cmp is judged by its sign; cases whose exact result "
+                               "overflows the seconds field are not judged; non-trivial = add/sub with carry or "
                                "borrow, ms/us with a non-zero seconds part, cmp decided by the nanosecond field",
+                       "grid_cases": n_grid, "correspondence_cases_per_build": len(diff_idx),
                        "samples": samples, "traces_validated_against_impl": diffs}
     res["wall"] = time.time() - t0
     return res
